@@ -34,10 +34,14 @@ pub struct Died {
 }
 
 impl Proc {
-    fn spawn(keep_stderr: bool) -> Result<Proc, String> {
+    fn spawn(keep_stderr: bool, cpu: Option<usize>) -> Result<Proc, String> {
         let exe = std::env::current_exe().map_err(|e| e.to_string())?;
         let mut c = Command::new(exe);
         c.arg("worker").stdin(Stdio::piped()).stdout(Stdio::piped());
+        if let Some(cpu) = cpu {
+            // one CPU per worker: keeps munmap's TLB shootdowns local (they dominate otherwise)
+            c.env("VX_C13_CPU", cpu.to_string());
+        }
         if keep_stderr {
             c.env("VX_C13_KEEP_STDERR", "1").stderr(Stdio::piped());
         } else {
@@ -53,6 +57,7 @@ impl Proc {
 pub struct Worker {
     proc: Option<Proc>,
     keep_stderr: bool,
+    cpu: Option<usize>,
     pub spawns: u64,
 }
 
@@ -61,6 +66,15 @@ impl Worker {
         Worker {
             proc: None,
             keep_stderr,
+            cpu: None,
+            spawns: 0,
+        }
+    }
+    pub fn pinned(cpu: usize) -> Self {
+        Worker {
+            proc: None,
+            keep_stderr: false,
+            cpu: Some(cpu),
             spawns: 0,
         }
     }
@@ -68,7 +82,7 @@ impl Worker {
     /// Ok(Ok(reply)) / Ok(Err(died)) — the child died while processing this request / Err(machinery)
     pub fn call<T: DeserializeOwned>(&mut self, req: &Req) -> Result<Result<T, Died>, String> {
         if self.proc.is_none() {
-            self.proc = Some(Proc::spawn(self.keep_stderr)?);
+            self.proc = Some(Proc::spawn(self.keep_stderr, self.cpu)?);
             self.spawns += 1;
         }
         let line = serde_json::to_string(req).map_err(|e| e.to_string())?;
@@ -109,7 +123,7 @@ impl Worker {
     /// and, if the child died, how — the culprit is then the cell with index `replies.len()`.
     pub fn call_batch(&mut self, reqs: &[CellReq]) -> Result<(Vec<CellRes>, Option<Died>), String> {
         if self.proc.is_none() {
-            self.proc = Some(Proc::spawn(self.keep_stderr)?);
+            self.proc = Some(Proc::spawn(self.keep_stderr, self.cpu)?);
             self.spawns += 1;
         }
         let line = serde_json::to_string(&Req::Batch(reqs.to_vec())).map_err(|e| e.to_string())?;
@@ -264,7 +278,12 @@ fn do_cells(sh: &Shared, w: &mut Worker, info: &BodyInfo, reqs: &[CellReq], base
         let req = &reqs[from];
         from += 1;
         // re-run the culprit alone in a fresh child to confirm
-        let mut fresh = Worker::new(false);
+        let mut fresh = Worker {
+            proc: None,
+            keep_stderr: false,
+            cpu: w.cpu,
+            spawns: 0,
+        };
         let again = fresh.call::<CellRes>(&Req::Cell(req.clone()));
         let mut a = sh.agg.lock().unwrap();
         a.cells += 1;
@@ -709,9 +728,10 @@ pub fn run_tier(ctx: &CheckCtx, thorough: bool) -> CheckResult {
     {
         let q: Mutex<VecDeque<usize>> = Mutex::new((0..all.len()).collect());
         std::thread::scope(|s| {
-            for _ in 0..nthreads {
-                s.spawn(|| {
-                    let mut w = Worker::new(false);
+            for t in 0..nthreads {
+                let (q, sh, infos, all) = (&q, &sh, &infos, &all);
+                s.spawn(move || {
+                    let mut w = Worker::pinned(t);
                     loop {
                         let i = match q.lock().unwrap().pop_front() {
                             Some(i) => i,
@@ -810,21 +830,22 @@ pub fn run_tier(ctx: &CheckCtx, thorough: bool) -> CheckResult {
     let njobs = jobs.len();
     let q = Mutex::new(jobs);
     std::thread::scope(|s| {
-        for _ in 0..nthreads {
-            s.spawn(|| {
-                let mut w = Worker::new(false);
+        for t in 0..nthreads {
+            let (q, sh, infos) = (&q, &sh, &infos);
+            s.spawn(move || {
+                let mut w = Worker::pinned(t);
                 loop {
                     let job = match q.lock().unwrap().pop_front() {
                         Some(j) => j,
                         None => break,
                     };
-                    if out_of_time(&sh) {
+                    if out_of_time(sh) {
                         sh.agg.lock().unwrap().skipped_for_time += 1;
                         continue;
                     }
                     match job {
-                        Job::ArmA { b, lo, hi } => arm_a(&sh, &mut w, &infos[b], lo, hi),
-                        Job::ArmB { b, fam } => arm_b(&sh, &mut w, &infos[b], &fam, thorough),
+                        Job::ArmA { b, lo, hi } => arm_a(sh, &mut w, &infos[b], lo, hi),
+                        Job::ArmB { b, fam } => arm_b(sh, &mut w, &infos[b], &fam, thorough),
                     }
                 }
                 sh.agg.lock().unwrap().spawns += w.spawns;
